@@ -415,6 +415,13 @@ theorem rxInv_step (e : Ep) (ev : Ev) (hi : RxInv e) : RxInv (step e ev).1 := by
       · split
         · exact rxInv_of_view (by rw [view_doClose]; rfl) hi
         · exact rxInv_of_view (by rw [view_sendSessTerm]; rfl) hi
+  | modulate raw =>
+    simp only []
+    split
+    · exact hi
+    · split
+      · exact rxInv_of_view rfl hi
+      · exact hi
 
 /-! ### the processed log only grows, by exactly the handled messages -/
 
@@ -620,6 +627,11 @@ theorem processed_prefix_step (e : Ep) (ev : Ev) : e.processed <+: (step e ev).1
       · split
         · apply hv; rw [view_doClose]; rfl
         · apply hv; rw [view_sendSessTerm]; rfl
+  | modulate raw =>
+    simp only []
+    split
+    · exact List.prefix_refl _
+    · split <;> exact List.prefix_refl _
 
 theorem rxInv_init (cfg : Cfg) : RxInv { cfg := cfg } := by
   simp [RxInv, rxSpec]
